@@ -230,7 +230,7 @@ def gen_blocks(rng, n):
         # group penalties
         grp_ptr = np.array([0, 2, 5], dtype=np.int32)
         grp_indices = np.array([3, 0, 1, 4, 2], dtype=np.int32)
-        wg = np.array([rng.choice([0.5, 1.0, 2.0]) for _ in range(2)])
+        wg = np.array([rng.choice([0.0, 0.5, 1.0, 2.0]) for _ in range(2)])     # a zero weight = unpenalised group
         wf = np.array([rng.choice([0.0, 0.5, 1.0, 2.0]) for _ in range(5)])
         pos = rng.random() < 0.5
         insts = [("WeightedGroupL2", bs.WeightedGroupL2(a, wg, grp_ptr, grp_indices, pos),
